@@ -28,6 +28,8 @@ META['explanation'] += ' ' + 'R6: header line spellings over the ParserText mode
 META['explanation'] += ' ' + "R10: media type parser evaluated on case patterns. R11: string enumerations whose tokens the specification matches case-insensitively (reviewed table with citations in sa/specs/text.json): the class's _code_eq is evaluated."
 
 META['explanation'] += ' ' + 'R12: quoted components evaluated through the real compose and _parse (quoted and unquoted spelling, base64 with the real codec).'
+
+META['explanation'] += ' ' + 'R8 also: a term of another mechanism is declined with InvalidType whatever its length and qualifier.'
 HERE = os.path.dirname(os.path.dirname(os.path.abspath(__file__)))
 
 
